@@ -26,6 +26,7 @@ OriginOk(tag, o) ==
   CASE tag.c = "copy" -> o.f = tag.f /\ o.off = tag.off /\ o.ct
     [] tag.c = "exp"  -> o.f = tag.f /\ o.off >= tag.off
     [] tag.c = "syn"  -> o.f = ""
+    [] tag.c = "any"  -> TRUE
     [] OTHER -> FALSE
 
 \* C03 for blank bytes.  Which blanks survive around dropped directives is a layout detail the
@@ -50,7 +51,7 @@ BlankOk(env, exp, toks, b) ==
                      /\ (pt.c = "copy" /\ pt.f = b.f => pt.off + Len(toks[b.prev].t) <= b.off)
                      /\ (nt.c = "copy" /\ nt.f = b.f => b.off + len <= nt.off))
       nearExp == (pt.c = "exp" /\ pt.f = b.f) \/ (nt.c = "exp" /\ nt.f = b.f)
-      nearSyn == pt.c = "syn" \/ nt.c = "syn"
+      nearSyn == pt.c \in {"syn", "any"} \/ nt.c \in {"syn", "any"}
       \* an expansion that consists of blanks only has no neighbouring expansion token: it must then
       \* point into the body of a `define written in that file
       its == FileItems(env, b.f)
@@ -58,7 +59,8 @@ BlankOk(env, exp, toks, b) ==
                   /\ its[i].k = "def" /\ its[i].b # <<>>
                   /\ its[i].off + its[i].b[1].boff <= b.off
                   /\ (i < Len(its) => b.off <= its[i + 1].off)
-  IN IF b.f = "" THEN nearSyn ELSE (copied \/ nearExp \/ inBody)
+      nearAny == pt.c = "any" \/ nt.c = "any"
+  IN IF b.f = "" THEN nearSyn ELSE (copied \/ nearExp \/ inBody \/ nearAny)
 
 ErrOf(st) == IF st.status = "err" THEN st.err ELSE <<>>
 
